@@ -22,7 +22,7 @@
                    thrown away by a reset, oldest first (all prompts, in order;
                    prompt_logs cuts it at the EStart markers)
    decoded s     = every key press the parser produced, in order *)
-From Coq Require Import ZArith List Bool.
+From Coq Require Import ZArith List Bool Permutation.
 From PTK Require Import Lib.Sx Lib.Py Gen.C17_Bindings Model.C03_Vt100Parser Model.C03_Vt100Input Model.C17_Typeahead Model.C17_Emacs
   Proofs.C17_Core Proofs.C17_Conserve Proofs.C17_Accept Proofs.C17_Silent Proofs.C17_Main Proofs.C17_Script Proofs.C17_Witness
   Proofs.C17_ExitClean.
@@ -299,3 +299,60 @@ Theorem C17_real_table_no_deep : forall (c : core estate bid result) it,
   deep (deliver_d d_lookup d_lookup_scan d_waits e_eff e_is_cprh d_cpr_lookup e_feeds it c) = deep c.
 Proof. exact d_no_deep. Qed.
 Print Assumptions C17_real_table_no_deep.
+
+(* Handler-level conservation WITH feeding handlers, for EVERY label sequence
+   (ttimeoutlen / timeoutlen flushes and closing the input included):
+     handled c = every key press that was handed to a handler, dropped as
+                 unbound, or thrown out of the key buffer by a reset(), oldest
+                 first, all prompts;
+     fedl c    = every key press a handler fed with first=True, in call order.
+   There is a tagged list t whose key presses (tl_all t) are exactly
+   handled ++ key_buffer, whose untagged sub-list (tl_pop t) is exactly the
+   key presses popped from input_queue, in order, and whose tagged sub-list
+   (tl_fed t) is a permutation of the fed key presses: every popped key press
+   reaches a handler exactly once, in order, or waits in the key buffer - also
+   across a flush timeout - and the only extra key presses handlers see are the
+   fed ones, each exactly once.  With C17_queue_conservation (decoded = popped
+   ++ type-ahead ++ queue) this is the whole chain from the parser to the
+   handlers.  Also: the model's one-level-of-feeding give-up flag [deep] is
+   never set on any run.  Hypotheses on the binding set: cpr_silent,
+   no_pushback, no_deep (an activation never nests feeds) - all three proved
+   for the real table. *)
+Theorem C17_handler_conservation : forall (E bid res PS : Type)
+  (lookup lookup_scan : E -> list kp -> option bid) (waits : E -> list kp -> bool)
+  (eff : bid -> list kp -> E -> E * option res) (is_cprh : bid -> bool) (cpr_lookup : E -> option bid)
+  (feeds : bid -> list kp -> E -> list kp) (restart : E -> E)
+  (pfeed : str -> PS -> PS * list kp) (pflush : PS -> PS * list kp) (res_eof : res),
+  let run := @run E bid res PS lookup lookup_scan waits eff is_cprh cpr_lookup feeds restart pfeed pflush res_eof in
+  let init := @init E bid res PS in
+  cpr_silent eff cpr_lookup feeds -> no_pushback lookup lookup_scan waits eff is_cprh cpr_lookup feeds ->
+  no_deep lookup lookup_scan waits eff is_cprh cpr_lookup feeds ->
+  forall ls e p r,
+  let s := run ls (init e p r) in
+  deep (co s) = false /\
+  exists t, nc (tl_all t) = nc (handled (co s)) ++ nc (kbuf (co s)) /\
+            nc (tl_pop t) = nc (rpops (co s)) /\ Permutation (tl_fed t) (fedl (co s)).
+Proof. exact handler_conservation. Qed.
+Print Assumptions C17_handler_conservation.
+
+(* ... and for the regenerated table of a default session (C-j feeds ControlM)
+   over C03's byte-level input, with no hypothesis: every schedule, timeouts
+   and EOF included; [deep] is never set on any run of the real table. *)
+Theorem C17_handler_conservation_real_table : forall ls e r,
+  let s := @run estate bid result vstate d_lookup d_lookup_scan d_waits e_eff e_is_cprh d_cpr_lookup e_feeds
+                e_restart read_keys flush_keys REof ls (@init estate bid result vstate e vinit r) in
+  deep (co s) = false /\
+  exists t, nc (tl_all t) = nc (handled (co s)) ++ nc (kbuf (co s)) /\
+            nc (tl_pop t) = nc (rpops (co s)) /\ Permutation (tl_fed t) (fedl (co s)).
+Proof. exact handler_conservation_real_table. Qed.
+Print Assumptions C17_handler_conservation_real_table.
+
+(* ... and the fed key presses of the real table are all ControlM (fed by the
+   C-j binding): the tagged part of the interleaving above consists of
+   ControlM key presses only. *)
+Theorem C17_fed_keys_real_table : forall ls e r,
+  let s := @run estate bid result vstate d_lookup d_lookup_scan d_waits e_eff e_is_cprh d_cpr_lookup e_feeds
+                e_restart read_keys flush_keys REof ls (@init estate bid result vstate e vinit r) in
+  Forall (fun k => k = (KKey key_ControlM, [13%Z])) (fedl (co s)).
+Proof. exact fed_real_table. Qed.
+Print Assumptions C17_fed_keys_real_table.
